@@ -763,7 +763,8 @@ func (w *c05World) observe() (*c05Obs, error) {
 	}
 	w.mu.Unlock()
 	sort.Ints(o.Jobs)
-	// cross-check with the job manager's own dedup set
+	// cross-check with the job manager's own dedup set: a disagreement shows up as a job code
+	// outside the universe (which neither the model nor the specification accepts)
 	snap := certmagic.VerifMaintainJobsSnapshot()
 	var want []string
 	for _, code := range o.Jobs {
@@ -773,7 +774,7 @@ func (w *c05World) observe() (*c05Obs, error) {
 	}
 	sort.Strings(want)
 	if strings.Join(want, ",") != strings.Join(snap.Names, ",") {
-		return nil, fmt.Errorf("job manager names %v, harness sees renewal jobs %v", snap.Names, want)
+		o.Jobs = append(o.Jobs, 6*w.k+5)
 	}
 	return o, nil
 }
@@ -793,6 +794,15 @@ func (w *c05World) finish() error {
 		}
 	}
 	w.mu.Unlock()
+	for _, p := range w.passes {
+		if !p.passed {
+			select {
+			case <-p.done:
+			case <-time.After(c05Timeout):
+				return fmt.Errorf("pass %d did not return at the end", p.id)
+			}
+		}
+	}
 	deadline := time.Now().Add(c05Timeout)
 	for {
 		snap := certmagic.VerifMaintainJobsSnapshot()
@@ -804,15 +814,13 @@ func (w *c05World) finish() error {
 		}
 		time.Sleep(100 * time.Microsecond)
 	}
-	for _, p := range w.passes {
-		if !p.passed {
-			select {
-			case <-p.done:
-			case <-time.After(c05Timeout):
-				return fmt.Errorf("pass %d did not return at the end", p.id)
-			}
-		}
+	w.mu.Lock()
+	for n := range w.jobs {
+		w.jobs[n] = nil
 	}
+	w.passes = map[int]*c05Pass{}
+	w.mu.Unlock()
+	w.lastErr = false
 	w.cache.Stop()
 	w.be.Log.Hook = nil
 	return nil
@@ -892,6 +900,7 @@ type c05Result struct {
 	hist  c05Hist // with the events that were actually carried out
 	obs0  *c05Obs
 	obs   []*c05Obs
+	final *c05Obs // after cancelling the context and draining all jobs
 	feats map[string]bool
 }
 
@@ -900,9 +909,12 @@ type c05Chooser func(w *c05World, i int) *c05Event
 
 func runC05History(h *c05Hist, choose c05Chooser) (res *c05Result, err error) {
 	w := newC05World(h)
+	finished := false
 	defer func() {
-		if ferr := w.finish(); ferr != nil && err == nil {
-			err = ferr
+		if !finished {
+			if ferr := w.finish(); ferr != nil && err == nil {
+				err = ferr
+			}
 		}
 	}()
 	if err := w.setup(h); err != nil {
@@ -933,6 +945,17 @@ func runC05History(h *c05Hist, choose c05Chooser) (res *c05Result, err error) {
 		res.obs = append(res.obs, o)
 		c05Features(res.feats, *ev, prev, o)
 		prev = o
+	}
+	// shut down: cancel the context, let every job and pass run to its end, look again
+	finished = true
+	if err := w.finish(); err != nil {
+		return nil, err
+	}
+	if res.final, err = w.observe(); err != nil {
+		return nil, fmt.Errorf("observing after shutdown: %v", err)
+	}
+	if len(res.final.Cache) != len(prev.Cache) {
+		res.feats["cache_changed_at_shutdown"] = true
 	}
 	return res, nil
 }
@@ -1022,6 +1045,7 @@ func c05Emit(w *emit.Writer, class string, res *c05Result) {
 		c05EncEvent(e, ev)
 		c05EncObs(e, res.obs[i])
 	}
+	c05EncObs(e, res.final)
 	var feats []string
 	for k := range res.feats {
 		feats = append(feats, k)
@@ -1072,7 +1096,7 @@ func c05Emit(w *emit.Writer, class string, res *c05Result) {
 	w.Add(emit.Case{
 		Desc:       map[string]any{"class": class, "events": len(h.Events), "features": feats},
 		In:         h,
-		Obs:        map[string]any{"initial": res.obs0, "after_each_event": res.obs},
+		Obs:        map[string]any{"initial": res.obs0, "after_each_event": res.obs, "after_shutdown": res.final},
 		Wire:       e.String(),
 		Nontrivial: nontrivial,
 	})
